@@ -20,6 +20,7 @@ import (
 
 	"verif/internal/props"
 	"verif/internal/sim"
+	"verif/internal/tape"
 )
 
 func verifDir() string {
@@ -133,6 +134,27 @@ func main() {
 			die(2, "%v", err)
 		}
 		os.Exit(code)
+	case "gen":
+		// vsim gen <id> <index> [tier]: print the materialised scenario of one index as a replay file
+		prop, ok := props.All()[os.Args[2]]
+		if !ok || len(os.Args) < 4 {
+			die(2, "usage: vsim gen <id> <index> [tier]")
+		}
+		idx, _ := strconv.Atoi(os.Args[3])
+		tier := "quick"
+		if len(os.Args) > 4 {
+			tier = os.Args[4]
+		}
+		seed := uint64(1)
+		if s := os.Getenv("VERIF_SEED"); s != "" {
+			v, _ := strconv.ParseInt(s, 10, 64)
+			seed = uint64(v)
+		}
+		sc := prop.Generate(tape.New(tape.Derive(seed, uint64(idx))), tier)
+		b, _ := json.Marshal(sc)
+		rf := sim.ReplayFile{Property: prop.ID(), Tier: tier, VerifSeed: seed, Index: idx, Seed: tape.Derive(seed, uint64(idx)), Scenario: b}
+		o, _ := json.MarshalIndent(rf, "", " ")
+		fmt.Println(string(o))
 	case "selftest":
 		// vsim selftest determinism <id> [scenarios] [repeats]
 		if os.Args[2] != "determinism" || len(os.Args) < 4 {
